@@ -94,6 +94,8 @@ type SEn struct {
 	Emb Emb
 	C   int
 }
+type SQ struct{ q int }  // reflect cannot tell it from a Stack handle (one unexported field)
+type SE1 struct{ Emb }   // one exported embedded field
 
 func tof(x any) reflect.Type { return reflect.TypeOf(x) }
 
@@ -111,7 +113,7 @@ var elemTypes = []reflect.Type{nil, tof(int(0)), tof(""), tof((*int)(nil)), anyT
 var mapTypes = []reflect.Type{nil, tof(map[string]int(nil)), tof(map[string]any(nil)), tof(map[int]string(nil)), tof(map[string]int64(nil)),
 	tof(map[string][]int(nil)), tof(map[string]*int(nil)), tof(map[string]S1(nil)), tof(map[float64]int(nil))}
 var structTypes = []reflect.Type{nil, tof(S1{}), tof(SP{}), tof(SE{}), tof(Se{}), tof(S1b{}), tof(SA{}), tof(SN{}), tof(SPtr{}), tof(SL{}),
-	tof(S0{}), tof(S1c{}), tof(SE2{}), tof(SF{}), tof(SPP{}), tof(SEn{}), tof(Emb{}), tof(Emb2{}), tof(emb{})}
+	tof(S0{}), tof(S1c{}), tof(SE2{}), tof(SF{}), tof(SPP{}), tof(SEn{}), tof(Emb{}), tof(Emb2{}), tof(emb{}), tof(SQ{}), tof(SE1{})}
 var funcTypes = []reflect.Type{nil, tof(func() {}), tof(func() int { return 0 }), tof(func(int) string { return "" })}
 var chanTypes = []reflect.Type{nil, tof((chan int)(nil)), tof((chan string)(nil))}
 
@@ -580,7 +582,7 @@ var leafTypesMain = []reflect.Type{tof(int(0)), tof(""), tof(float64(0)), tof(fa
 	tof(S1{}), tof(SP{}), tof(SE{}), tof(SN{}), tof(SPtr{}), tof(SL{}), tof((**int)(nil)), tof((*int)(nil)), tof((*S1)(nil)), tof((*[]int)(nil)),
 	tof([][]int(nil)), tof([]S1(nil)), tof([]SP(nil)), tof([]map[string]int(nil)), tof(map[int]string(nil)), tof(SPP{}), tof([]float64(nil)),
 	tof(map[string][]int(nil)), tof(map[string]*int(nil)), tof(map[string]S1(nil)), tof([2]int{}), tof([]bool(nil)), tof([]int8(nil)), tof([]SE(nil)), tof([]*S1(nil))}
-var leafTypesAwk = []reflect.Type{tof(Se{}), tof(SA{}), tof(S0{}), tof(S1b{}), tof(S1c{}), tof(SE2{}), tof(SF{}), tof(SEn{}), tof(func() {}), tof(func() int { return 0 }),
+var leafTypesAwk = []reflect.Type{tof(SQ{}), tof(SE1{}), tof(Se{}), tof(SA{}), tof(S0{}), tof(S1b{}), tof(S1c{}), tof(SE2{}), tof(SF{}), tof(SEn{}), tof(func() {}), tof(func() int { return 0 }),
 	tof((chan int)(nil)), tof(MyInt(0)), tof(MyStr("")), tof(uintptr(0)), tof(unsafe.Pointer(nil)), tof([]any(nil)), tof(map[string]any(nil)), tof((*any)(nil)),
 	tof((*func())(nil)), tof((*chan int)(nil)), tof([]chan int(nil)), tof(([]func())(nil)), tof([]uintptr(nil)), tof([]MyInt(nil)), tof([]Se(nil)),
 	tof(map[float64]int(nil)), tof(map[string]int64(nil)), tof([]**int(nil)), tof(([]*func())(nil)), tof([]uint8(nil)), tof((*SP)(nil))}
